@@ -148,3 +148,17 @@ Proof. vm_compute. reflexivity. Qed.
 Example ex_empty_pattern :
   rpdac_locate_prefix ex_d [] = Some (0, 0) /\ range_of (spec_prefix_ids ex_S []) = (1, 6).
 Proof. vm_compute. split; reflexivity. Qed.
+
+(* ---- the prefix search of the current tree (empty-prefix guard of ad3c59e): EVERY NUL-free pattern ---- *)
+From LibCSD Require Import RPDACApiProofs.
+Theorem C04_rpdac_locate_prefix_every_pattern d S p :
+  rpdac_repr d S -> rpdac_input S -> nul_free p -> lenN p < 2 ^ 32 ->
+  rpdac_locate_prefix_api d p = Some (range_of (spec_prefix_ids S p)).
+Proof. exact (rpdac_locate_prefix_api_spec d S p). Qed.
+Print Assumptions C04_rpdac_locate_prefix_every_pattern.
+
+Theorem C04_rpdac_extract_prefix_every_pattern d S p :
+  rpdac_repr d S -> rpdac_input S -> nul_free p -> lenN p < 2 ^ 32 ->
+  rpdac_extract_prefix_api d p = Some (spec_prefix_strs S p).
+Proof. exact (rpdac_extract_prefix_api_spec d S p). Qed.
+Print Assumptions C04_rpdac_extract_prefix_every_pattern.
